@@ -117,7 +117,146 @@ func factEdges(fc *FCFG, info *types.Info, body ast.Node, f cmpFact, lenNames ma
 		}
 		return "", false
 	}
-	return fc.edgesEntailing(cls, func(v map[string]bool) bool { return v["$has:holds"] && v["holds"] })
+	out := fc.edgesEntailing(cls, func(v map[string]bool) bool { return v["$has:holds"] && v["holds"] })
+	return append(out, helperFactEdges(fc, info, body, f, matchLo, matchHi)...)
+}
+
+// helperFactEdges: the bounds may be checked by a helper of the package that receives
+// them — `if msg := sliceBoundsError(n, lo, hi); msg != "" { return error }`.  The edge
+// on which the helper's result is its "all good" value ("" / nil / true) establishes
+// the fact when every return of that value inside the helper lies behind edges that
+// establish it for the corresponding parameters.
+var boundsCtx *Ctx
+
+func helperFactEdges(fc *FCFG, info *types.Info, body ast.Node, f cmpFact, matchLo, matchHi func(ast.Expr) bool) []cfgEdge {
+	c := boundsCtx
+	if c == nil {
+		return nil
+	}
+	var out []cfgEdge
+	for _, b := range fc.G.Blocks {
+		cond := fc.CondOf(b)
+		if !fc.Live(b) || cond == nil {
+			continue
+		}
+		// which edge says "the helper's result is its zero / true value"
+		var call *ast.CallExpr
+		okOnTrue := false
+		e := ast.Unparen(cond)
+		neg := false
+		if ue, ok := e.(*ast.UnaryExpr); ok && ue.Op == token.NOT {
+			e, neg = ast.Unparen(ue.X), true
+		}
+		switch x := e.(type) {
+		case *ast.BinaryExpr:
+			if x.Op != token.EQL && x.Op != token.NEQ {
+				continue
+			}
+			for _, pr := range [][2]ast.Expr{{x.X, x.Y}, {x.Y, x.X}} {
+				zero := isNilIdent(info, pr[1])
+				if sv, ok := constStringVal(info, pr[1]); ok && sv == "" {
+					zero = true
+				}
+				if !zero {
+					continue
+				}
+				d := ast.Unparen(pr[0])
+				if sd := soleDef(info, body, d); sd != nil {
+					d = ast.Unparen(sd)
+				}
+				if ce, ok := d.(*ast.CallExpr); ok {
+					call = ce
+					okOnTrue = (x.Op == token.EQL) != neg
+				}
+			}
+		case *ast.CallExpr:
+			call, okOnTrue = x, !neg
+		case *ast.Ident:
+			if sd := soleDef(info, body, x); sd != nil {
+				if ce, ok := ast.Unparen(sd).(*ast.CallExpr); ok {
+					call, okOnTrue = ce, !neg
+				}
+			}
+		}
+		if call == nil {
+			continue
+		}
+		h := originOf(Callee(info, call))
+		if h == nil || c.declOf[h] == nil || c.declOf[h].Body == nil {
+			continue
+		}
+		hd := c.declOf[h]
+		hu := FuncUnit{h, hd, c.pkgOf[hd]}
+		hinfo := hu.Pkg.TypesInfo
+		hps := paramObjs(hu)
+		sig := h.Type().(*types.Signature)
+		if sig.Results().Len() != 1 {
+			continue
+		}
+		var pl, ph types.Object
+		hlen := map[string]bool{}
+		for i, a := range call.Args {
+			if i >= len(hps) {
+				break
+			}
+			if f.lo != "" && matchLo(a) {
+				pl = hps[i]
+			}
+			if matchHi(a) {
+				ph = hps[i]
+				if f.hiIsLen {
+					hlen[hps[i].Name()] = true
+				}
+			}
+		}
+		if ph == nil || (f.lo != "" && pl == nil) {
+			continue
+		}
+		hf := cmpFact{hi: ph.Name(), strict: f.strict, hiIsLen: f.hiIsLen}
+		if pl != nil {
+			hf.lo = pl.Name()
+		}
+		hfc := c.cfgOf(hu, nil)
+		saved := boundsCtx
+		boundsCtx = nil // one level
+		hEdges := factEdges(hfc, hinfo, hd.Body, hf, hlen)
+		boundsCtx = saved
+		if len(hEdges) == 0 {
+			continue
+		}
+		good, nok := true, 0
+		for _, hb := range hfc.G.Blocks {
+			if !hfc.Live(hb) {
+				continue
+			}
+			for _, n := range hb.Nodes {
+				rs, ok := n.(*ast.ReturnStmt)
+				if !ok || len(rs.Results) != 1 {
+					continue
+				}
+				r := rs.Results[0]
+				isOK := isNilIdent(hinfo, r) || isBoolConst(hinfo, r, true)
+				if sv, ok := constStringVal(hinfo, r); ok && sv == "" {
+					isOK = true
+				}
+				if !isOK {
+					continue
+				}
+				nok++
+				if hfc.reachableAvoiding(hb, hEdges) {
+					good = false
+				}
+			}
+		}
+		if good && nok > 0 {
+			k := 1
+			if okOnTrue {
+				k = 0
+			}
+			out = append(out, cfgEdge{b, k})
+		}
+	}
+	return out
 }
 
 func init() {
@@ -128,6 +267,7 @@ func init() {
 			if intFld == nil {
 				return []Obligation{anchorMissing("BOUNDS.lisp-int", "LVal.Int")}
 			}
+			boundsCtx = c
 			var obs []Obligation
 			seenUnit := map[*types.Func]bool{}
 			for _, e := range c.Registry() {
